@@ -268,7 +268,9 @@ Definition read_timing (tb : Z) (s : list ch) (ln : Z) : res (tok * list ch * Z)
 Definition read_loop (tb : Z) (s : list ch) (ln : Z) : res (tok * list ch * Z) :=
   let '(s1, ln1) := skip_space s ln in
   if is_numeric s1 || eq_char s1 61 || eq_char s1 40 then
-    do r <- read_arg_value (arg_fuel s1) tb s1 ln1; let '(v, s2, ln2) := r in Ok (TLoopBegin (aval_to_i v), s2, ln2)
+    do r <- read_arg_value (arg_fuel s1) tb s1 ln1; let '(v, s2, ln2) := r in
+    (* counts the program requests beyond any reasonable size (and negative ones, `as usize`) are outside the model *)
+    if (aval_to_i v <? 0) || (aval_to_i v >? 100000) then Unsupported U_TRACKNO else Ok (TLoopBegin (aval_to_i v), s2, ln2)
   else Ok (TLoopBegin 2, s1, ln1).
 
 Definition read_harmony_end (s : list ch) (ln : Z) : tok * list ch * Z :=
@@ -379,13 +381,15 @@ Fixpoint lex_f (fuel : nat) (ls : lexstate) (src : list ch) (lineno : Z) : res l
            else if c =? 114 then push (Ok (read_rest r ln))
            else if c =? 108 then push (read_length r ln)
            else if c =? 111 then push (read_octave tb r ln)
-           else if c =? 113 then push (read_qlen tb r ln)
-           else if c =? 118 then push (read_velocity tb r ln)
+           else if ((c =? 113) || (c =? 118)) && negb (prefixb (zs "Add") r || ((c =? 113) && prefixb (zs "2Add") r)) then
+             (if c =? 113 then push (read_qlen tb r ln) else push (read_velocity tb r ln))
            else if c =? 116 then push (read_timing tb r ln)
            else if (c =? 112) || (c =? 121) then Unsupported U_CHAR
-           else if is_upper c || (c =? 95) then
-             (* cur.prev(): the command is re-read from the ORIGINAL character *)
-             if is_upper c0 || (c0 =? 95) then
+           else if is_upper c || (c =? 95) || (c =? 113) || (c =? 118) then
+             (* cur.prev(): the command is re-read from the ORIGINAL character (vAdd / qAdd / q2Add arrive here too) *)
+             (* cur.prev(); cur.replace_char(ch): the command is re-read with the converted character *)
+             let s := c :: r in
+             if true then
                if prefixb (zs "End") s || prefixb (zs "END") s then Ok (acc, ls)
                else
                  let '(word0, s1) := get_word s in
@@ -413,7 +417,8 @@ Fixpoint lex_f (fuel : nat) (ls : lexstate) (src : list ch) (lineno : Z) : res l
                      loop n' ls' s4 ln4 harmony (acc ++ [t])
                    else if (argt =? 73) && (list_eqb ttype (zs "Track") || list_eqb ttype (zs "Channel")
                                        || list_eqb ttype (zs "KeyShift") || list_eqb ttype (zs "TrackKey")
-                                       || list_eqb ttype (zs "MeasureShift") || list_eqb ttype (zs "Tempo")) then
+                                       || list_eqb ttype (zs "MeasureShift") || list_eqb ttype (zs "Tempo")
+                                       || list_eqb ttype (zs "SongVelocityAdd") || list_eqb ttype (zs "SongQAdd")) then
                      let '(s2, ln2) := skip_space s1 ln in
                      let s3 := if eq_char s2 61 then tl s2 else s2 in
                      do ra <- read_args_tokens ls s3 ln2;
@@ -425,7 +430,9 @@ Fixpoint lex_f (fuel : nat) (ls : lexstate) (src : list ch) (lineno : Z) : res l
                                 else if list_eqb ttype (zs "Channel") then TChannel v
                                 else if list_eqb ttype (zs "KeyShift") then TKeyShift v
                                 else if list_eqb ttype (zs "MeasureShift") then TMeasureShift v
-                                else if list_eqb ttype (zs "Tempo") then TTempo v else TTrackKey v in
+                                else if list_eqb ttype (zs "Tempo") then TTempo v
+                                else if list_eqb ttype (zs "SongVelocityAdd") then TVAdd v
+                                else if list_eqb ttype (zs "SongQAdd") then TQAdd v else TTrackKey v in
                        loop n' ls' s4 ln4 harmony (acc ++ [t])
                      | _ => Unsupported U_UPPER
                      end
@@ -456,7 +463,8 @@ Fixpoint lex_f (fuel : nat) (ls : lexstate) (src : list ch) (lineno : Z) : res l
                  end
              else Unsupported U_CHAR   (* a full-width capital: prev() re-reads the unconverted character *)
            else if c =? 35 then
-             if c0 =? 35 then
+             let s := c :: r in
+             if true then
                if prefixb [35; 35] s || prefixb [35; 32] s || prefixb [35; 45] s then
                  let '(_, s1, ln1) := get_token_ch c_NL s ln in loop n' ls s1 ln1 harmony acc
                else Unsupported U_MACRO
@@ -470,7 +478,8 @@ Fixpoint lex_f (fuel : nat) (ls : lexstate) (src : list ch) (lineno : Z) : res l
            else if c =? 41 then loop n' ls r ln harmony (acc ++ [TVelocityRel 1])
            else if c =? 40 then loop n' ls r ln harmony (acc ++ [TVelocityRel (-1)])
            else if c =? 47 then
-             if c0 =? 47 then
+             let s := c :: r in
+             if true then
                if prefixb [47; 47; 47] s then
                  let '(_, s1, ln1) := get_token_ch c_NL s ln in loop n' ls s1 ln1 harmony (acc ++ [TComment])
                else if prefixb [47; 47] s then
@@ -491,7 +500,8 @@ Fixpoint lex_f (fuel : nat) (ls : lexstate) (src : list ch) (lineno : Z) : res l
              else loop n' ls r ln true (acc ++ [THarmonyBegin])
            else if c =? 36 then Unsupported U_MACRO
            else if c =? 123 then
-             if c0 =? 123 then
+             let s := c :: r in
+             if true then
                let '(block, s3, ln3) := get_token_nest s ln 123 125 in
                let '(len, s4, ln4) := get_note_length s3 ln3 in
                do sub <- lex_f f ls block ln4;
